@@ -1,6 +1,6 @@
 (* Props/C12.v — C12 property theorems only. *)
-From Coq Require Import List String Arith Bool Sorted Permutation.
-From Verif Require Import Gen.StatusClass Gen.ReqSites Model.C12_Retry Proofs.C12.
+From Coq Require Import List String Arith Bool Sorted Permutation ZArith.
+From Verif Require Import Gen.StatusClass Gen.ReqSites Model.C12_Retry Model.C12_Backoff Proofs.C12 Proofs.C12b.
 Import ListNotations.
 
 (* whatever the registry answers (ANY reply sequence, any host set, any classification table): one logical
@@ -67,3 +67,31 @@ Theorem C12_priority_direction_refuted :
   exists lo hi, h_prio lo < h_prio hi /\ sort_hosts [hi; lo] = [lo; hi].
 Proof. exists (mkHost 1 1 false), (mkHost 2 10 false). split; [repeat constructor|reflexivity]. Qed.
 Print Assumptions C12_priority_direction_refuted.
+
+(* ---------- backing off: the per-host bookkeeping of backoffGet / backoffSet / backoffReset with time ---------- *)
+(* for EVERY initial and maximal delay, retry limit and series of requests to one host - sent, failed (with or without
+   Retry-After) or answered - whose clock readings are taken after the previous request was sent: a request to a host
+   whose backoff count c is positive is sent no earlier than the previous request to that host plus
+   min(delayInit * 2^c, delayMax), and never before the clock reading at which it was released *)
+Theorem C12_backoff_spacing : forall dinit dmax limit es r,
+  clocked dinit dmax limit b0 r es -> spaced dinit dmax limit b0 r es.
+Proof. intros dinit dmax limit es r. apply spacing. apply b0_inv. Qed.
+Print Assumptions C12_backoff_spacing.
+
+(* the server-requested delay: after a failure carrying Retry-After the next request to the host is sent no earlier
+   than the clock reading of that failure plus the requested time, whatever state the host was in *)
+Theorem C12_retry_after_respected : forall dinit dmax limit s r now ra now2, (0 <= dinit)%Z -> (0 <= dmax)%Z ->
+  Binv s r -> (r <= now)%Z -> (0 < ra)%Z -> (now <= now2)%Z ->
+  (now + ra <= snd (bget dinit dmax now2 (fst (bset limit now ra s))))%Z.
+Proof. exact retry_after_respected. Qed.
+Print Assumptions C12_retry_after_respected.
+
+(* a concrete series (delays 1 and 8, limit 5): requests at 0, released at 2, then (after a slow failure at 50) at 50,
+   then at 58 - the spacing is counted from the previous request, NOT from the failure: the third request leaves at the
+   very clock reading of the second failure.  A reading of the property that counts the delay from the failure is
+   refuted by this run; the reading proved above (and checked on the implementation) is the one the code implements *)
+Example C12_backoff_run :
+  fst (brun 1 8 5 b0 [EGet 0; EFail 0 0; EGet 0; EFail 50 0; EGet 50; EFail 50 0; EGet 50]%Z)
+  = [(0%Z, 0); (2%Z, 1); (50%Z, 2); (58%Z, 3)] /\
+  clocked 1 8 5 b0 0 [EGet 0; EFail 0 0; EGet 0; EFail 50 0; EGet 50; EFail 50 0; EGet 50]%Z.
+Proof. vm_compute. repeat split; discriminate. Qed.
